@@ -92,7 +92,7 @@ def validate_trace(module, cfg_text, tag, trace_path, timeout=600, env=None, hea
     if env:
         e.update(env)
     r = _run(module, cfg_text, tag, 1, timeout, env=e, java_opts=TRACE_JAVA, heap=heap, coverage=False,
-             extra=["-continue"])
+             extra=[])
     r["bad"] = []
     for m in re.finditer(r'^<<"BAD", (\{[^}]*\}), (\d+)>>', r.get("raw", ""), re.M):
         labels = re.findall(r'"([^"]+)"', m.group(1))
